@@ -338,20 +338,61 @@ def finding_shift(w, graph=False):
 
 
 def twice_shift(w):
-    """(k-1) x log prior density for every registered prior that `model.named_priors()` yields k > 1 times (a module
-    reachable through several attribute paths), per batch element, divided by N; plus the sites concerned."""
+    """(k-1) x log prior density for every *registration* that `model.named_priors()` yields k > 1 times (its module is
+    reachable through several attribute paths), per batch element, divided by N; plus the sites concerned.
+    Registrations are identified by (module, local prior name) — NOT by the Prior instance, which may legitimately be
+    shared by several registrations."""
     import torch
     from props import _c02models as Mz
     seen = {}
-    for _name, _mod, prior, _closure, _ in w.model.named_priors():
-        seen[id(prior)] = seen.get(id(prior), 0) + 1
+    for name, mod, _prior, _closure, _ in w.model.named_priors():
+        k = (id(mod), name.rsplit(".", 1)[-1])
+        seen[k] = seen.get(k, 0) + 1
     terms, sites = [], set()
-    for (site, kind, a, b, getter, own), prior in zip(w.priors, w.prior_objs):
-        k = seen.get(id(prior), 0)
+    for (site, kind, a, b, getter, own), reg in zip(w.priors, w.prior_regs):
+        k = seen.get(reg, 0)
         if k > 1:
             terms.append((k - 1) * Mz.prior_logpdf(torch, kind, a, b, getter().detach()))
             sites.add(site)
-    return reduce_terms(terms, tuple(w.batch)) / w.N, sorted(sites)
+    return reduce_terms(_spec_shape(w, terms), tuple(w.batch)) / w.N, sorted(sites)
+
+
+def dropped_shift(w):
+    """-(log prior density) of every registration that `model.named_priors()` does not yield at all, per batch element,
+    divided by N; plus the owners concerned."""
+    import torch
+    from props import _c02models as Mz
+    seen = {(id(mod), name.rsplit(".", 1)[-1]) for name, mod, _p, _c, _ in w.model.named_priors()}
+    terms, owners = [], []
+    for (site, kind, a, b, getter, own), reg in zip(w.priors, w.prior_regs):
+        if reg not in seen:
+            terms.append(-Mz.prior_logpdf(torch, kind, a, b, getter().detach()))
+            owners.append(own)
+    return reduce_terms(_spec_shape(w, terms), tuple(w.batch)) / w.N, owners
+
+
+def _spec_shape(w, terms):
+    k = len(w.batch)
+    if k and w.cfg["batch"] != "model":
+        return [t.reshape((1,) * k + tuple(t.shape)) for t in terms]
+    return terms
+
+
+def check_registrations(case, w):
+    """`named_priors()` must enumerate every registration exactly once (also when one Prior instance is shared)."""
+    got = [(id(mod), name.rsplit(".", 1)[-1]) for name, mod, _p, _c, _ in w.model.named_priors()]
+    want = list(w.prior_regs)
+    case.notes["registrations"] = case.notes.get("registrations", 0) + len(want)
+    case.notes["shared_instance_registrations"] = case.notes.get("shared_instance_registrations", 0) + \
+        len(w.prior_objs) - len({id(p) for p in w.prior_objs})
+    if len(got) != len(want) or sorted(got) != sorted(want):
+        missing = [own for (_s, _k, _a, _b, _g, own), reg in zip(w.priors, w.prior_regs) if reg not in got]
+        extra = len(got) - len(set(got))
+        shared = len(w.prior_objs) - len({id(p) for p in w.prior_objs})
+        key = "named-priors:registration-dropped" if missing else "named-priors:registration-repeated"
+        case.fail(key, f"model.named_priors() yields {len(got)} entries for {len(want)} registrations "
+                       f"({shared} of them share a Prior instance with another registration): "
+                       f"missing {missing}, repeated {extra}")
 
 
 class Case:
@@ -449,6 +490,8 @@ def run_mll(cfg, do_grad=True):
         case.lines, Bx = mll_lines(w, A, m, y, pri, add)
         shift = finding_shift(w)
         tshift, tsites = twice_shift(w)
+        dshift, downers = dropped_shift(w)
+        check_registrations(case, w)
         # ---- gradients (correspondence only)
         grads = None
         if do_grad and len(impl) == 2:
@@ -475,6 +518,13 @@ def run_mll(cfg, do_grad=True):
                                   f"mll{list(bi)} = {got!r}; dense definition {ex!r}; the prior on `{site}` is added "
                                   f"{'twice' } because Module.named_priors() yields it once per attribute path of its "
                                   f"module (likelihood and covar_module.likelihood): {ex + float(tshift[bi] if tshift.dim() else tshift)!r}")
+                    continue
+                if downers and _close(got, ex + float(dshift[bi] if dshift.dim() else dshift), 1e-9, cond=cond):
+                    case.fail("prior-dropped:shared-instance" if len({id(p) for p in w.prior_objs}) < len(w.prior_objs)
+                              else "prior-dropped",
+                              f"mll{list(bi)} = {got!r}; dense definition (every registered prior counted) {ex!r}; the "
+                              f"implementation omits the log prior density of {downers} — Module.named_priors() does "
+                              f"not yield these registrations")
                     continue
                 if (fsites or bsites) and _close(got, ex + float(shift[bi]), 1e-9, cond=cond):
                     for site in bsites:
@@ -585,6 +635,7 @@ def run_loo(cfg):
         except Exception as e:
             case.fail(f"loo-raises:{tag}", f"LeaveOneOutPseudoLikelihood raised {type(e).__name__}: {str(e)[:200]}")
             return case
+        check_registrations(case, w)
         case.lines, Bx = mll_lines(w, A, m, y, pri, add, op="loo")
         Bx = tuple(Bx)
         ye = y.expand(*Bx, y.shape[-1])
@@ -635,7 +686,10 @@ def run_sum(cfg):
     import gpytorch
     from props import _c02models as Mz
     case = Case(cfg, "sum")
-    ws = [Mz.build(c) for c in cfg["members"]]
+    shared = {}     # Prior instances shared across the member models (entries with a gid)
+    ws = [Mz.build(c, shared) for c in cfg["members"]]
+    for w in ws:
+        check_registrations(case, w)
     with warnings.catch_warnings(), torch.no_grad():
         warnings.simplefilter("ignore")
         model = gpytorch.models.IndependentModelList(*[w.model for w in ws])
@@ -746,6 +800,35 @@ def gen_cfgs(ctx):
                      priors=[["task_noises", rng.choice(["gamma", "lognormal", "normal"]), round(rng.uniform(0.3, 1.5), 3),
                               round(rng.uniform(0.4, 2.0), 3)]])
             cfgs.append(("mll", c))
+    # ONE Prior instance shared by 2-3 registrations (same module / different modules); the dense reference counts
+    # every registration, and named_priors() must enumerate every registration exactly once
+    def shared_cfg(batch=None):
+        kern, sites = rng.choice([("rq", ["lengthscale", "alpha"]), ("periodic", ["lengthscale", "period_length"]),
+                                  ("scale(rbf)", ["lengthscale", "outputscale"]),
+                                  ("scale(matern2.5)", ["lengthscale", "outputscale", "noise"]),
+                                  ("sum", ["lengthscale", "outputscale"]), ("scale(sum)", ["lengthscale", "outputscale", "noise"])])
+        c = Mz.random_cfg(rng, family="single", n_max=7)
+        kind = rng.choice(["gamma", "lognormal", "normal"])
+        a, bb = round(rng.uniform(0.3, 1.5), 3), round(rng.uniform(0.4, 2.0), 3)
+        c.update(kernel=kern, lik="gaussian", n=max(c["n"], 2), priors=[[site, kind, a, bb, "g"] for site in sites])
+        if batch is not None:
+            c.update(batch=batch, b=0 if batch == "none" else rng.randint(2, 3))
+        if rng.random() < 0.4:   # plus an unshared prior
+            c["priors"].append(["constant", "normal", 0.5, 1.0])
+            c["mean"] = "constant"
+        return c
+    for _ in range(2 if quick else 24):
+        for batch in ("none", "model", "data"):
+            cfgs.append(("mll", shared_cfg(batch)))
+    for _ in range(3 if quick else 30):
+        cfgs.append(("loo", shared_cfg()))
+    for _ in range(2 if quick else 20):
+        members = [shared_cfg("none") for _k in range(rng.randint(2, 3))]
+        for mcfg in members[1:]:    # the same instance also across the member models
+            for e, e0 in zip(mcfg["priors"], members[0]["priors"]):
+                if len(e) > 4:
+                    e[1:4] = members[0]["priors"][0][1:4]
+        cfgs.append(("sum", {"members": members, "seed": members[0]["seed"]}))
     for _ in range(16 if quick else 400):
         c = Mz.random_cfg(rng, family="single", n_max=8)
         c["n"] = max(c["n"], 2)
@@ -813,6 +896,9 @@ def correspondence(ctx, use_driver=True):
             ctx.fail(key, msg, {"what": c.what, "cfg": cfg})
         if c.notes.get("grad_params"):
             ctx.count("gradient_parameter_tensors_checked", c.notes["grad_params"])
+        for k in ("registrations", "shared_instance_registrations"):
+            if c.notes.get(k):
+                ctx.count("prior_" + k, c.notes[k])
         if c.notes.get("fd_unstable"):
             ctx.count("finite_difference_unstable_skipped", c.notes["fd_unstable"])
     ctx.notes["cells"] = cells
